@@ -975,6 +975,15 @@ class Interpreter(BaseInterpreter[TContext, TEvent]):
             if explicit_id
             else f"{self.id}:{actor_machine_key}:{uuid.uuid4()}"
         )
+        # ♻️ Re-using an explicit id replaces the previous child. Overwriting
+        #    the map entry alone orphaned it: still running, unreachable by
+        #    id, and never stopped by this interpreter's own `stop()`.
+        previous = self._actors.pop(actor_id, None)
+        if previous is not None:
+            self._actor_sources.pop(actor_id, None)
+            stopped = previous.stop()
+            if inspect.isawaitable(stopped):
+                await stopped
         child_interpreter = Interpreter(actor_machine)
         child_interpreter.parent = self
         child_interpreter.id = actor_id
